@@ -1,2 +1,67 @@
-/- Oracle for C17 (stub: replaced when the property's model is built). -/
-def main : IO Unit := pure ()
+/-
+  Oracle for C17: reads the batch descriptions (`B ...` lines) printed by harness/cmd/c17, replays
+  each batch as a schedule on BMV.Lifecycle under the configuration regenerated from the Go source
+  (genCfg / genShut), lets the workers settle, and prints the model's growth per creation site:
+    CFG proc=<0|1> disp=.. emu=.. req=.. pool=.. shut:<fn>=<0|1> ...
+    X id=<n> proc=<d> disp=<d> emu=<d> req=<d> pool=<d> total=<d>
+-/
+import BMV.LifecycleGen
+import BMV.Lines
+open BMV.Lifecycle BMV.Lines
+
+structure OSt where
+  sys : Sys := {}
+  next : Nat := 0          -- next fresh call id
+  held : List Nat := []    -- ReqRoots created by `reqhold` and not yet closed
+
+def b2s (b : Bool) : String := if b then "1" else "0"
+
+def cfgLine : String :=
+  s!"CFG proc={b2s genCfg.proc} disp={b2s genCfg.disp} emu={b2s genCfg.emu} req={b2s genCfg.req} pool={b2s genCfg.pool}"
+    ++ String.join (launcherNames.map fun (_, n) => s!" shut:{n}={b2s (genShut n)}")
+
+def delta (a b : Sys) (k : Kind) : Int := (liveOf k b : Int) - (liveOf k a : Int)
+
+def report (id : String) (a b : Sys) : String :=
+  let ks := Kind.all.map fun k => s!"{k.name}={delta a b k}"
+  s!"X id={id} " ++ " ".intercalate ks ++ s!" total={(live b : Int) - (live a : Int)}"
+
+def reqActs (c0 n : Nat) (close : Bool) : List Act :=
+  ((List.range n).map fun j =>
+    [Act.spawn (c0 + j) .req 1] ++ (if close then [Act.shutdown (c0 + j)] else [])).flatten
+
+def handle (st : OSt) (line : String) : OSt × List String :=
+  let fs := fields line
+  match fs with
+  | "B" :: rest =>
+    let id := (kv rest "id").getD "?"
+    let mode := (kv rest "mode").getD ""
+    let n := nat! ((kv rest "n").getD "0")
+    let P := nat! ((kv rest "P").getD "0")
+    let ticks := nat! ((kv rest "ticks").getD "1")
+    let fn := (kv rest "fn").getD ""
+    let shut := match (kv rest "shut").getD "gen" with
+      | "gen" => genShut fn
+      | "1" => true
+      | _ => false
+    let s := st.sys
+    let (s', next', held') :=
+      if mode == "seq" || mode == "seqerr" || mode == "fit" || mode == "raw" then
+        (seqBatch genCfg P ticks shut st.next n s, st.next + n, st.held)
+      else if mode == "par" then
+        (parBatch genCfg P ticks shut st.next n s, st.next + n, st.held)
+      else if mode == "req" || mode == "basm" then
+        (settle genCfg (run genCfg s (reqActs st.next n shut)), st.next + n, st.held)
+      else if mode == "reqhold" then
+        (settle genCfg (run genCfg s (reqActs st.next n false)), st.next + n,
+          st.held ++ (List.range n).map (st.next + ·))
+      else if mode == "reqrelease" then
+        (settle genCfg (run genCfg s (st.held.map .shutdown)), st.next, [])
+      else (s, st.next, st.held)
+    ({ sys := s', next := next', held := held' }, [report id s s'])
+  | _ => (st, [])
+
+def main : IO Unit := do
+  IO.println cfgLine
+  let _ ← foldStdin ({} : OSt) handle
+  pure ()
